@@ -160,6 +160,13 @@ class _CacheServiceBase(Generic[CacheValueT]):
                 return obj
             except TypeError:
                 # Object is not hashable, convert it
+                if isinstance(obj, dict):
+                    # Keep the values: mappings that differ only in their
+                    # values must not share a cache entry
+                    return tuple(sorted(
+                        ((_make_hashable(k), _make_hashable(v)) for k, v in obj.items()),
+                        key=repr,
+                    ))
                 if hasattr(obj, '__iter__') and not isinstance(obj, (str, bytes)):
                     # Convert iterables (like numpy arrays) to tuples
                     try:
